@@ -10,11 +10,16 @@ import (
 	"rscheck/rules/reent"
 	"strings"
 
+	"golang.org/x/tools/go/cfg"
+
+	"rscheck/cfgq"
 	"rscheck/core"
 	"rscheck/driver"
+	"rscheck/flow"
 	"rscheck/grammar"
 	"rscheck/pat"
 	"rscheck/rules/arith"
+	"rscheck/rules/ring"
 )
 
 const (
@@ -273,32 +278,7 @@ func Run(c *core.Ctx) {
 	if fn := c.Func(rdbPkg, "Encoder", "EncodeObject"); fn != nil {
 		order(c, fn, "EncodeObject", []string{"_e.enc.EncodeDatabase(int(_db))", "_e.enc.EncodeExpiry(_exp)", "_o.encodeType(_e.enc)", "_e.enc.EncodeString(_key)", "_o.encodeValue(_e.enc)"},
 			"a key record is [SELECTDB db] [EXPIRETIME_MS ms] type key value, in this order")
-		var ps []*ast.Ident
-		for _, f := range fn.Decl.Type.Params.List {
-			ps = append(ps, f.Names...)
-		}
-		if len(ps) == 4 {
-			b := pat.Binds{"_db": ps[0], "_key": ps[1], "_exp": ps[2]}
-			ifdb := findIf(info, fn.Decl.Body, func(cond ast.Expr) bool {
-				return pat.Expr("_e.db == -1 || uint32(_e.db) != _db").Match(info, cond, b) != nil
-			})
-			okDB := false
-			if ifdb != nil {
-				n1, _ := pat.Stmt("_e.db = int64(_db)").Find(info, ifdb.Body, b)
-				n2, _ := pat.Expr("_e.enc.EncodeDatabase(int(_db))").Find(info, ifdb.Body, b)
-				okDB = n1 != nil && n2 != nil
-			}
-			c.Check("R2.grammar", "EncodeObject/select-db", fn.Decl.Pos(), okDB, "a SELECTDB opcode is written whenever the database differs from the last one written (and for the first object), and the new database is remembered")
-			ifexp := findIf(info, fn.Decl.Body, func(cond ast.Expr) bool { return pat.Expr("_exp != 0").Match(info, cond, b) != nil })
-			okE := false
-			if ifexp != nil {
-				n, _ := pat.Expr("_e.enc.EncodeExpiry(_exp)").Find(info, ifexp.Body, b)
-				okE = n != nil
-			}
-			c.Check("R2.grammar", "EncodeObject/expiry", fn.Decl.Pos(), okE, "the expiry opcode carries the object's absolute expiry and is written exactly when it is non-zero")
-			k, _ := pat.Expr("_e.enc.EncodeString(_key)").Find(info, fn.Decl.Body, b)
-			c.Check("R2.grammar", "EncodeObject/key", fn.Decl.Pos(), k != nil, "the key written is the key passed in")
-		}
+		encodeObjectRules(c, fn)
 	}
 	for _, m := range []struct{ name, call string }{{"EncodeHeader", "EncodeHeader"}, {"EncodeFooter", "EncodeFooter"}} {
 		if fn := c.Func(rdbPkg, "Encoder", m.name); fn != nil {
@@ -404,21 +384,267 @@ func Run(c *core.Ctx) {
 	arith.LengthFingerprint(c, "R6.length", c.Func(rdbPkg, "rdbReader", "readEncodedLength"))
 }
 
+// rootPos is the position, in the root function, of the statement through
+// which site s is reached.
+func rootPos(s flow.Site, n ast.Node) token.Pos {
+	if len(s.Up) > 0 {
+		if nd := s.Up[len(s.Up)-1].At.Node(); nd != nil {
+			return nd.Pos()
+		}
+	}
+	return n.Pos()
+}
+
+// order: the calls matching the patterns happen in this order (each pattern is
+// looked for in fn and in the same-module helpers it calls; what counts is the
+// position in fn of the statement through which the call is reached).
 func order(c *core.Ctx, fn *core.Fn, name string, calls []string, why string) {
-	info := fn.Pkg.TypesInfo
+	g := cfgq.Of(c.Program, fn)
+	e := flow.New(c.Program)
+	e.Opaque = func(f *types.Func) bool { return f.Pkg() == nil || !strings.HasSuffix(f.Pkg().Path(), rdbPkg) }
+	first := map[int]token.Pos{}
+	e.Walk(g, fn.Decl.Body, func(s flow.Site, n ast.Node) {
+		x, ok := n.(*ast.CallExpr)
+		if !ok {
+			return
+		}
+		for i, p := range calls {
+			if _, seen := first[i]; seen {
+				continue
+			}
+			if pat.Expr(p).Match(s.G.Info, x, nil) != nil {
+				first[i] = rootPos(s, x)
+			}
+		}
+	})
 	last := token.NoPos
 	ok := true
 	missing := ""
-	for _, p := range calls {
-		n, _ := pat.Expr(p).Find(info, fn.Decl.Body, nil)
-		if n == nil || n.Pos() < last {
+	for i, p := range calls {
+		pos, found := first[i]
+		if !found || pos < last {
 			ok = false
 			missing = strings.ReplaceAll(p, "_", "")
 			break
 		}
-		last = n.Pos()
+		last = pos
 	}
 	c.Check("R2.grammar", name+"/order", fn.Decl.Pos(), ok, why+" (offending part: "+missing+")")
+}
+
+// encodeObjectRules: when the database selector and the expiry are written.
+func encodeObjectRules(c *core.Ctx, fn *core.Fn) {
+	info := fn.Pkg.TypesInfo
+	var ps []*ast.Ident
+	for _, f := range fn.Decl.Type.Params.List {
+		ps = append(ps, f.Names...)
+	}
+	if len(ps) != 4 {
+		c.Undecidedf("R2.grammar", "EncodeObject/params", fn.Decl.Pos(), "expected (db, key, expireat, obj)")
+		return
+	}
+	g := cfgq.Of(c.Program, fn)
+	e := flow.New(c.Program)
+	e.Opaque = func(f *types.Func) bool { return f.Pkg() == nil || !strings.HasSuffix(f.Pkg().Path(), rdbPkg) }
+	isParam := func(s flow.Site, x ast.Expr, p *ast.Ident) bool {
+		r := ast.Unparen(e.Resolve(s, x))
+		for {
+			call, ok := r.(*ast.CallExpr)
+			if ok && len(call.Args) == 1 {
+				if tv, has := s.G.Info.Types[call.Fun]; has && tv.IsType() {
+					r = ast.Unparen(call.Args[0])
+					continue
+				}
+			}
+			break
+		}
+		id, ok := r.(*ast.Ident)
+		return ok && core.ObjOf(info, id) == info.Defs[p]
+	}
+	callsOf := func(name string) []flow.CallSite {
+		return e.Calls(g, fn.Decl.Body, func(f *types.Func) bool {
+			return f.Name() == name && f.Pkg() != nil && !strings.HasSuffix(f.Pkg().Path(), rdbPkg)
+		})
+	}
+	errorExit := func(gg *cfgq.Graph) func(b *cfg.Block, k cfgq.ExitKind) bool {
+		return func(b *cfg.Block, k cfgq.ExitKind) bool {
+			if k == cfgq.ExitFall {
+				return true
+			}
+			if k != cfgq.ExitRet {
+				return false
+			}
+			ret := b.Nodes[len(b.Nodes)-1].(*ast.ReturnStmt)
+			return cfgq.ClassifyReturn(gg.Info, gg.Body, ret) != cfgq.RetErr
+		}
+	}
+	// ---- SELECTDB
+	dbCalls := callsOf("EncodeDatabase")
+	if len(dbCalls) != 1 {
+		c.Undecidedf("R2.grammar", "EncodeObject/select-db", fn.Decl.Pos(), "expected one EncodeDatabase call reachable from EncodeObject, found %d", len(dbCalls))
+	} else {
+		dc := dbCalls[0]
+		gg := dc.G
+		gi := gg.Info
+		okDB := len(dc.Call.Args) == 1 && isParam(dc.Site, dc.Call.Args[0], ps[0])
+		var why []string
+		if !okDB {
+			why = append(why, "the selector does not carry the db parameter")
+		}
+		// atoms: A = `e.db == -1` (nothing written yet), B = `uint32(e.db) == db` (same database)
+		atomFor := func(a, b bool) func(ast.Expr) (bool, bool) {
+			return func(x ast.Expr) (bool, bool) {
+				be, ok := ast.Unparen(x).(*ast.BinaryExpr)
+				if !ok || be.Op != token.EQL && be.Op != token.NEQ {
+					return false, false
+				}
+				eq := be.Op == token.EQL
+				mentionsDB := func(y ast.Expr) bool {
+					hit := false
+					ast.Inspect(y, func(n ast.Node) bool {
+						if sel, ok := n.(*ast.SelectorExpr); ok && core.IsFieldNamed(gi, sel, "Encoder", "db") {
+							hit = true
+						}
+						return !hit
+					})
+					return hit
+				}
+				for _, pr := range [][2]ast.Expr{{be.X, be.Y}, {be.Y, be.X}} {
+					if !mentionsDB(pr[0]) {
+						continue
+					}
+					if v, isC := core.IntConst(gi, pr[1]); isC && v == -1 {
+						return a == eq, true
+					}
+					if isParam(flow.Site{G: gg, At: gg.Entry(), Up: dc.Up}, pr[1], ps[0]) {
+						return b == eq, true
+					}
+				}
+				return false, false
+			}
+		}
+		isDB := func(n ast.Node) bool {
+			for _, cl := range cfgq.ExecCalls(n) {
+				if cl == dc.Call {
+					return true
+				}
+			}
+			return false
+		}
+		// same database as before: no selector
+		w := gg.Path(cfgq.Query{From: gg.Entry(), Target: isDB, AvoidEdge: ring.Infeasible(gi, atomFor(false, true))})
+		if w != nil {
+			okDB = false
+			why = append(why, "the selector is written although the database is the one written last")
+		}
+		// first object, or another database: the selector is written on every successful path
+		for _, ab := range [][2]bool{{true, false}, {true, true}, {false, false}} {
+			w := gg.Path(cfgq.Query{From: gg.Entry(), Avoid: isDB, AvoidEdge: ring.Infeasible(gi, atomFor(ab[0], ab[1])), TargetExit: errorExit(gg)})
+			if w != nil {
+				okDB = false // a successful exit without the selector
+				why = append(why, fmt.Sprintf("with (nothing written yet=%v, same database=%v) a path succeeds without writing the selector: %s", ab[0], ab[1], strings.Join(w, " -> ")))
+			}
+		}
+		// the new database is remembered on the way
+		remembered := false
+		for _, st := range e.Stores(gg, gg.Body, func(v *types.Var) bool { return v.Name() == "db" && v.Pkg() == fn.Obj.Pkg() }) {
+			if st.G == gg && st.Plain() && isParam(flow.Site{G: gg, At: st.At, Up: dc.Up}, st.RHS, ps[0]) {
+				sn := st.Stmt
+				w1 := gg.Path(cfgq.Query{From: gg.Entry(), Avoid: func(n ast.Node) bool { return n == sn }, Target: isDB})
+				if w1 == nil {
+					remembered = true
+				} else if dp, ok := gg.Find(dc.Call); ok {
+					w2 := gg.Path(cfgq.Query{From: dp, After: true, Avoid: func(n ast.Node) bool { return n == sn }, TargetExit: errorExit(gg)})
+					remembered = w2 == nil
+				}
+			}
+		}
+		// a helper must be called unconditionally before the type byte
+		if len(dc.Up) > 0 {
+			top := dc.Up[len(dc.Up)-1]
+			var typePt *cfgq.Point
+			e.Walk(g, fn.Decl.Body, func(s flow.Site, n ast.Node) {
+				if x, ok := n.(*ast.CallExpr); ok && len(s.Up) == 0 && pat.Expr("_o.encodeType(_enc)").Match(info, x, nil) != nil {
+					p := s.At
+					typePt = &p
+				}
+			})
+			if typePt == nil {
+				okDB = false
+				why = append(why, "cannot find the type byte write")
+			} else {
+				hn := top.At.Node()
+				dom, _ := g.Dominated(*typePt, func(n ast.Node) bool { return n == hn })
+				if !dom {
+					why = append(why, "the helper that writes the selector is not called on every path before the type byte")
+				}
+				okDB = okDB && dom
+			}
+		}
+		if !remembered {
+			why = append(why, "the database written is not stored in e.db together with the selector")
+		}
+		c.Check("R2.grammar", "EncodeObject/select-db", fn.Decl.Pos(), okDB && remembered, "a SELECTDB opcode is written whenever the database differs from the last one written (and for the first object), and the new database is remembered; "+strings.Join(why, "; "))
+	}
+	// ---- expiry
+	exCalls := callsOf("EncodeExpiry")
+	if len(exCalls) != 1 {
+		c.Undecidedf("R2.grammar", "EncodeObject/expiry", fn.Decl.Pos(), "expected one EncodeExpiry call reachable from EncodeObject, found %d", len(exCalls))
+	} else {
+		ec := exCalls[0]
+		okE := len(ec.Call.Args) == 1 && isParam(ec.Site, ec.Call.Args[0], ps[2])
+		nonZero := func(f cfgq.Fact) bool {
+			be, ok := ast.Unparen(flow.Positive(f)).(*ast.BinaryExpr)
+			if !ok || be.Op != token.NEQ && be.Op != token.GTR {
+				return false
+			}
+			v, isC := core.IntConst(info, be.Y)
+			if !isC || v != 0 {
+				return false
+			}
+			id, isId := ast.Unparen(be.X).(*ast.Ident)
+			return isId && core.ObjOf(info, id) == info.Defs[ps[2]]
+		}
+		okE = okE && e.Under(ec.Site, nonZero)
+		// and it is written whenever the expiry is non-zero: under `expireat != 0` no
+		// successful exit of the function holding the call avoids it
+		gg := ec.G
+		atom := func(x ast.Expr) (bool, bool) {
+			be, ok := ast.Unparen(x).(*ast.BinaryExpr)
+			if !ok {
+				return false, false
+			}
+			if v, isC := core.IntConst(gg.Info, be.Y); isC && v == 0 && isParam(flow.Site{G: gg, At: gg.Entry(), Up: ec.Up}, be.X, ps[2]) {
+				switch be.Op {
+				case token.NEQ, token.GTR:
+					return true, true
+				case token.EQL:
+					return false, true
+				}
+			}
+			return false, false
+		}
+		isEx := func(n ast.Node) bool {
+			for _, cl := range cfgq.ExecCalls(n) {
+				if cl == ec.Call {
+					return true
+				}
+			}
+			return false
+		}
+		if w := gg.Path(cfgq.Query{From: gg.Entry(), Avoid: isEx, AvoidEdge: ring.Infeasible(gg.Info, atom), TargetExit: errorExit(gg)}); w != nil {
+			okE = false
+		}
+		c.Check("R2.grammar", "EncodeObject/expiry", fn.Decl.Pos(), okE, "the expiry opcode carries the object's absolute expiry and is written exactly when it is non-zero")
+	}
+	// ---- key
+	okK := false
+	for _, kc := range e.Calls(g, fn.Decl.Body, func(f *types.Func) bool { return f.Name() == "EncodeString" }) {
+		if len(kc.Call.Args) == 1 && isParam(kc.Site, kc.Call.Args[0], ps[1]) {
+			okK = true
+		}
+	}
+	c.Check("R2.grammar", "EncodeObject/key", fn.Decl.Pos(), okK, "the key written is the key passed in")
 }
 
 func findIf(info *types.Info, root ast.Node, match func(cond ast.Expr) bool) *ast.IfStmt {
